@@ -42,7 +42,22 @@ func accStep(acc uint64, cmd []byte) (uint64, sm.Result) {
 	if len(d) > 2 {
 		d = d[:2]
 	}
-	return acc, sm.Result{Value: acc, Data: append([]byte(nil), d...)}
+	d = append([]byte(nil), d...)
+	// the first command byte selects the shape of the result (acc_update in Model/Session.v,
+	// shared with the C05 package)
+	if len(cmd) > 0 {
+		switch cmd[0] {
+		case 0xE0:
+			return acc, sm.Result{}
+		case 0xE1:
+			return acc, sm.Result{Value: 0, Data: []byte{}}
+		case 0xE2:
+			return acc, sm.Result{Value: acc}
+		case 0xE3:
+			return acc, sm.Result{Value: 0, Data: d}
+		}
+	}
+	return acc, sm.Result{Value: acc, Data: d}
 }
 
 // userSM is what the harness reads from whichever machine is in use.
